@@ -5,6 +5,8 @@
 // (B); observed results must agree bit for bit. Perturbations must leave the recipe's argument
 // objects (read back through serialisation/digests) unchanged.
 #include "worldgen.hpp"
+#include "store_classes.hpp"
+#include "Basic/ICloneable.hpp"
 
 #include "Basic/Law.hpp"
 #include "Basic/OptCst.hpp"
@@ -561,8 +563,9 @@ const char* PERTS[] = {"p.covmat-masked",   "p.covmat-other",   "p.kriging-clone
                        "p.rng-style",       "p.sim-otherseed",  "p.copy-db",        "p.copy-model",     "p.copy-vector",   "p.opt-dbg",
                        "p.opt-cst",         "p.opt-sparse",     "p.space-toggle",   "p.vario-other",    "p.fft-other",     "p.loadnf-missing",
                        "p.cols-add-del",    "p.roles-set-clear", "p.sel-add-del",   "p.model-add-del",  "p.model-range",   "p.calc-injected",
-                       "p.heap-churn",      "p.optim-toggle",   "p.xvalid-clone",   "p.selrandom-other", "p.container"};
-const int NPERTS = 29;
+                       "p.heap-churn",      "p.optim-toggle",   "p.xvalid-clone",   "p.selrandom-other", "p.container",
+                       "p.copysem",         "p.copysem"};
+const int NPERTS = 31;
 
 // a second, unrelated small world
 void otherWorld(World& O, long salt, int ndim)
@@ -857,6 +860,46 @@ void perturb(World& W, const Op& op, Ctx& c)
     otherWorld(O, a, W.spec.ndim);
     O.dbin->addSelectionRandom(0.5, 11 + (int)(b % 500));
   }
+  else if (k == "p.copysem")
+  {
+    // copies of objects are equal to, and independent of, their source: every cloneable serialisable class
+    const auto& A = adapters();
+    const ClassAdapter& ad = A[(size_t)(a % (long)A.size())];
+    Rng r1((uint64_t)b * 977 + 11), r2((uint64_t)b * 977 + 12);
+    std::unique_ptr<ASerializable> src(ad.make(r1)), other(ad.make(r2));
+    ICloneable* cl = dynamic_cast<ICloneable*>(src.get());
+    if (cl != nullptr && src && other)
+    {
+      Desc d0, d1, d2, d3;
+      ad.describe(src.get(), d0);
+      std::unique_ptr<ICloneable> cpc(cl->clone());
+      ASerializable* cp = dynamic_cast<ASerializable*>(cpc.get());
+      if (cp == nullptr) { c.count("skipped.clone-not-serialisable"); }
+      else
+      {
+        ad.describe(cp, d1);
+        std::string df = descDiff(d0, d1, 0., 0.);
+        if (!df.empty()) { c.violation("C10|copy-differs-from-source|" + ad.name, "clone() of a " + ad.name + ": " + df); return; }
+        // replace the content of the copy by another object's: the source must not move
+        std::ostringstream os;
+        other->serialize(os, false);
+        std::istringstream is(os.str());
+        (void)cp->deserialize(is, false);
+        ad.describe(src.get(), d2);
+        df = descDiff(d0, d2, 0., 0.);
+        if (!df.empty()) { c.violation("C10|copy-not-independent|" + ad.name, "overwriting a clone changed its source: " + df); return; }
+        // and the other way round: a fresh clone survives the overwriting of its source
+        std::unique_ptr<ICloneable> cpc2(cl->clone());
+        ASerializable* cp2 = dynamic_cast<ASerializable*>(cpc2.get());
+        std::istringstream is2(os.str());
+        (void)src->deserialize(is2, false);
+        if (cp2) { ad.describe(cp2, d3); df = descDiff(d0, d3, 0., 0.); if (!df.empty()) { c.violation("C10|copy-not-independent|" + ad.name, "overwriting the source changed its clone: " + df); return; } }
+        c.count("probe.copy-semantics-checked");
+      }
+    }
+    else c.count("skipped.class-not-cloneable");
+    c.count("fault.copy-mutated");
+  }
   else if (k == "p.container")
   {
     ASerializable::setContainerName(false, "/tmp/simkit-nowhere/");
@@ -870,7 +913,8 @@ void perturb(World& W, const Op& op, Ctx& c)
 bool globalOnly(const std::string& k)
 {
   return k == "p.rng-draws" || k == "p.rng-style" || k == "p.sim-otherseed" || k == "p.opt-dbg" || k == "p.opt-cst" || k == "p.opt-sparse" ||
-         k == "p.vario-other.g" || k == "p.fft-other" || k == "p.loadnf-missing" || k == "p.heap-churn" || k == "p.container" || k == "p.copy-vector.g";
+         k == "p.vario-other.g" || k == "p.fft-other" || k == "p.loadnf-missing" || k == "p.heap-churn" || k == "p.container" || k == "p.copy-vector.g" ||
+         k == "p.copysem";
 }
 
 void execWorld(const Plan& p, Ctx& c, bool bare, const std::string& prop)
